@@ -581,6 +581,12 @@ fn gen_batch_render(rng: &mut Rng, sw: &Swarm, tg: &mut TaskGen, n_inputs: usize
     ops.push(plain(render(1, 0)));
     // and the long-lived renderer once more on the first code
     ops.push(plain(render(0, 0)));
+    // the caller's variable is reused: another code of the same version now lives where the
+    // first one was; both renderers render "the same variable" again
+    let other_mask = (base_mask + 1 + rng.below(7) as u8) % 8;
+    ops.push(plain(Op::BuildFresh { input: rng.usize_below(n_inputs.max(1)) as u8, mode: None, ecl: Some(0), version: Some(version), mask: Some(other_mask), out: 0 }));
+    ops.push(plain(render(0, 0)));
+    ops.push(plain(render(1, 0)));
 }
 
 // ---------------------------------------------------------------------------
